@@ -402,7 +402,7 @@ def _replay_dir(check_id):
 
 
 def write_replay(check_id, tier, viol):
-    d = os.path.join(env.VERIF, "replay", check_id)
+    d = os.path.join(env.OUT, "replay", check_id)
     os.makedirs(d, exist_ok=True)
     doc = dict(property=check_id, tier=tier, part=viol["part"], msg=viol["msg"], case=viol["case"],
                seed=env.seed_base())
@@ -574,8 +574,8 @@ def main(argv=None):
         wall_s=round(time.time() - t0, 2),
         violations=len(violations),
     )
-    os.makedirs(os.path.join(env.VERIF, "evidence"), exist_ok=True)
-    evpath = os.path.join(env.VERIF, "evidence", check_id + ".json")
+    os.makedirs(os.path.join(env.OUT, "evidence"), exist_ok=True)
+    evpath = os.path.join(env.OUT, "evidence", check_id + ".json")
     with open(evpath, "w") as f:
         json.dump(ev, f, indent=1)
         f.write("\n")
